@@ -450,7 +450,8 @@ func envInt(name string) int {
 // contract lock
 
 func checkContractLock(eng *Engine) error {
-	if os.Getenv("GOWP_NOLOCK") != "" {
+	if os.Getenv("GOWP_NOLOCK") != "" && scratchOut() != "" {
+		// only for runs against a scratch copy (GOWP_REPO): they write no evidence
 		return nil
 	}
 	data, err := os.ReadFile(filepath.Join(verifRoot, "contracts.lock"))
